@@ -686,6 +686,70 @@ def nested_cases(ctx, replay=None):
     return {"violations": viol, "coverage": {"nested_sibling_writes": done}}
 
 
+def mounted_fault_cases(ctx, replay=None):
+    """A MountedStore stages the value in a local scratch file before it is copied to the remote side.  When the inner store's
+    write, `copy_from_local` or (on read) `copy_to_local` fails, nothing may stay behind in the temporary directory - and the
+    remote value must be what it was.  (tempfile's directory is pointed at a private one for the duration, so that the listing
+    is ours alone.)"""
+    import tempfile
+    from uberjob.stores import BinaryFileStore, MountedStore, PickleFileStore
+    viol, done = [], 0
+    cases = [replay["mounted_case"]] if replay else ["inner-write", "copy-from-local", "copy-to-local", "none"]
+    old = tempfile.tempdir
+    for kind in cases:
+        with sc.scratch_dir("c11m") as d:
+            scratch, remote = os.path.join(d, "tmp"), os.path.join(d, "remote.bin")
+            os.makedirs(scratch)
+            with open(remote, "wb") as f:
+                f.write(b"OLD")
+
+            class M(MountedStore):
+                def copy_from_local(self, local_path):
+                    if kind == "copy-from-local":
+                        raise OSError("upload failed")
+                    with open(local_path, "rb") as a, open(remote, "wb") as b:
+                        b.write(a.read())
+
+                def copy_to_local(self, local_path):
+                    if kind == "copy-to-local":
+                        raise OSError("download failed")
+                    with open(remote, "rb") as a, open(local_path, "wb") as b:
+                        b.write(a.read())
+
+                def get_modified_time(self):
+                    return None
+
+            st = M(PickleFileStore if kind == "inner-write" else BinaryFileStore)
+            tempfile.tempdir = scratch
+            try:
+                err = None
+                try:
+                    if kind == "copy-to-local":
+                        st.read()
+                    else:
+                        st.write((lambda: 0) if kind == "inner-write" else b"NEW")       # a lambda cannot be pickled
+                except Exception as e:      # noqa: BLE001
+                    err = e
+            finally:
+                tempfile.tempdir = old
+            done += 1
+            left = sorted(os.listdir(scratch))
+            rem = open(remote, "rb").read()
+            what = None
+            if kind != "none" and err is None:
+                what = "the failing operation raised nothing"
+            elif kind == "none" and (err is not None or rem != b"NEW"):
+                what = f"a fault-free write gave {err!r}, remote {rem!r}"
+            elif left:
+                what = f"left behind in the temporary directory: {left}"
+            elif kind != "none" and rem != b"OLD":
+                what = f"the remote value changed to {rem!r} although the operation failed"
+            if what:
+                viol.append({"property": "C11", "what": f"MountedStore, fault in {kind}: {what}", "replay_fn": "mounted", "mounted_case": kind})
+                break
+    return {"violations": viol, "coverage": {"mounted_fault_cases": done}}
+
+
 def explore(ctx, n_cases=None, seed_shift=0):
     rng = random.Random(ctx.seed * 7919 + 11 + seed_shift)
     quick = ctx.tier == "quick"
@@ -731,6 +795,10 @@ def explore(ctx, n_cases=None, seed_shift=0):
             ns = nested_cases(ctx)
             violations += ns["violations"]
             cov.update(ns["coverage"])
+        if not violations:
+            ms = mounted_fault_cases(ctx)
+            violations += ms["violations"]
+            cov.update(ms["coverage"])
     finally:
         sc.cleanup_scratch()
     return {"violations": violations, "disagreements": disagreements[:3], "coverage": cov}
@@ -804,6 +872,12 @@ def replay(ctx, payload):
     if w.get("replay_fn") == "rlimit":
         try:
             r = rlimit_cases(ctx, replay=w)
+        finally:
+            sc.cleanup_scratch()
+        return r["violations"][0]["what"] if r["violations"] else None
+    if w.get("replay_fn") == "mounted":
+        try:
+            r = mounted_fault_cases(ctx, replay=w)
         finally:
             sc.cleanup_scratch()
         return r["violations"][0]["what"] if r["violations"] else None
